@@ -315,6 +315,10 @@ class LintFix:
             return set()
         elif (
             self.edit_type == "replace"
+            # NOTE: An empty edit list is not a source-only fix. Without this
+            # check `all()` is vacuously true for it and we would index into
+            # an empty list of source fixes below.
+            and self.edit
             and all(edit.is_type("raw") for edit in cast(list[RawSegment], self.edit))
             and all(edit._source_fixes for edit in cast(list[RawSegment], self.edit))
         ):
